@@ -73,6 +73,9 @@ def design (j : Json) : R Json := do
   if (← fNat j "dp_range_len") != 3 then
     -- target_power indexes dp_range[2]: IndexError -> ConfigurationError, as soon as one amplifier needs the rule
     return jObj [("error", jStr "ConfigurationError")]
+  if ch.line.any (fun e => match e with
+    | .fiber _ p => splitRaises sc p
+    | _ => false) then return jObj [("error", jStr "NetworkTopologyError")]
   let missing := addMissingLine sc ch
   let withConn := addConn (← fF j "con_in") (← fF j "con_out") (← fF j "eol") missing
   if (runs withConn).any padRaises then return jObj [("error", jStr "TypeError")]
